@@ -1975,3 +1975,20 @@ package go_clipper2
 //@   assumes len(c.scanlineList) == 0 && forall(k, 0, len(c.minimaList), c.minimaList[k] != nil && c.minimaList[k].Vertex != nil)
 //@   ensures [unknown-clip-type-clips-nothing] (ct == NoClip || ct > Xor) ==> (c.succeeded && c.fillRule == old(c.fillRule) && c.clipType == old(c.clipType) && same(c.outrecList, old(c.outrecList)))
 //@   assert after c.clipType [sweep-runs-with-known-enum-values] c.clipType == ct && Intersection <= ct && ct <= Xor && c.fillRule <= Negative && (old(fillRule) <= Negative ==> c.fillRule == old(fillRule))
+
+// at the top of a scanbeam every edge that ends there is moved to its top vertex before it is
+// processed as a maximum: doMaxima and the horizontals it triggers read curX (C01)
+//@ func clipperBase.doMaxima
+//@   props C01
+//@   trusted
+//@   requires [edge-stands-at-its-top] ae != nil && ae.curX == ae.top.X
+
+//@ func clipperBase.doTopOfScanbeam
+//@   props C01
+//@   nosafety
+
+// kept opaque here: its own obligations need the vertex ring and the join preconditions
+//@ func clipperBase.updateEdgeIntoAEL
+//@   props C01
+//@   trusted
+//@   assumes ae != nil && ae.vertexTop != nil
